@@ -20,3 +20,5 @@ Ltac case_eff :=
 
 (* the oracle's value of the walk-off factor F against the Spec definition (a Riemann integral), by verified quadrature *)
 Ltac case_F := rewrite F_walkoff_eq by lra; integral with (i_fuel 400, i_prec 60).
+
+Ltac case_Rint := unfold R_integrand, R_exponent, walk_d; interval with (i_prec 80).
